@@ -16,6 +16,7 @@ RULE = ("signals in V+-^k (k<=4/5) and structured long signals x snr scalar in d
 ASSUMPTIONS = ["the statistical sentence is a finite 3-seed confirmation of NumPy's generator (within 3 %), not a proof",
                "all-zero signals are excluded for finite SNR (noise std is then 0 by definition - still checked for scale == 0)"]
 ANCHORS = {"process.py": [(283, 294), (296, 297)]}
+FORMS_HARNESSES = "all"
 EXPLANATION = "definition of the noise scale observed at the seam for every element of a bounded lattice"
 
 
